@@ -195,6 +195,18 @@ def answer (t : Ty) (a b : Val) : String :=
 end Cmp24
 open Cmp24
 
+/-- `cmp24m <type> <a> <b>`: `match a { <literal b> -> true, _ -> false }` — a literal pattern matches
+    exactly the values `==` to it -/
+def handleCmp24m : List String → String
+  | [ty, a, b] =>
+    match parseTy 64 ty.toList with
+    | some (t, []) =>
+      match parseVal t a.toList, parseVal t b.toList with
+      | some (x, []), some (y, []) => s!"eq={bit (eqOf t x y)}"
+      | _, _ => "bad-op"
+    | _ => "bad-op"
+  | _ => "bad-op"
+
 def handleCmp24 : List String → String
   | [ty, a, b] =>
     match parseTy 64 ty.toList with
